@@ -18,11 +18,30 @@ theorem parent_none_of_unlocked (t : Task) (hi : t.idsOk = true) (h : t.isLocked
   rw [isLocked_iff t hi] at h
   cases hp : t.parent <;> simp_all
 
+/-- What holds of the id strings of every roster entry: hostname and offer id are never blanked;
+    agent id and executor id are blanked only by a lost agent / executor, which also makes the
+    task INACTIVE (and TASK_RUNNING, which makes it ACTIVE, writes both again). -/
+def Task.sound (t : Task) : Prop :=
+  t.hostOk = true ∧ t.offer = true ∧ (t.active = true → t.agent = true ∧ t.executor = true)
+
+theorem sound_of_idsOk (t : Task) (h : t.idsOk = true) : t.sound := by
+  simp only [Task.idsOk, Bool.and_eq_true] at h
+  exact ⟨h.1.1.1, h.1.2, fun _ => ⟨h.1.1.2, h.2⟩⟩
+
+theorem idsOk_of_sound_active (t : Task) (h : t.sound) (ha : t.active = true) : t.idsOk = true := by
+  obtain ⟨a, b, c⟩ := h
+  simp [Task.idsOk, a, b, c ha]
+
+/-- Rewriting fields other than the id strings and the status keeps soundness. -/
+theorem sound_congr {t t' : Task} (h1 : t'.hostOk = t.hostOk) (h2 : t'.offer = t.offer) (h3 : t'.agent = t.agent)
+    (h4 : t'.executor = t.executor) (h5 : t'.active = t.active) : t.sound → t'.sound := by
+  intro h; unfold Task.sound at *; rw [h1, h2, h3, h4, h5]; exact h
+
 /-! ### the invariant -/
 
 /-- What holds of every state reachable without a free-standing claim step. -/
 structure Inv (s : State) : Prop where
-  idsOk : ∀ t ∈ s.roster, t.idsOk = true
+  ids : ∀ t ∈ s.roster, t.sound
   fresh : ∀ t ∈ s.roster, t.id < s.nextTask
   rosterNodup : (s.roster.map (·.id)).Nodup
   envFresh : ∀ E ∈ s.envs, ∀ x ∈ E.tasks, x < s.nextTask
@@ -52,7 +71,7 @@ theorem inv_of_roster_subset {s s' : State} (h : Inv s)
     (hn : s'.nextTask = s.nextTask) (hc : s'.creating = s.creating) : Inv s' := by
   have hr : ∀ t ∈ s'.roster, t ∈ s.roster := fun t ht => hsl.subset ht
   constructor
-  · intro t ht; exact h.idsOk t (hr t ht)
+  · intro t ht; exact h.ids t (hr t ht)
   · intro t ht; rw [hn]; exact h.fresh t (hr t ht)
   · exact h.rosterNodup.sublist (hsl.map _)
   · rw [he, hn]; exact h.envFresh
@@ -93,7 +112,7 @@ namespace Own
 /-- Rewriting roster entries and environment records without touching ids, parents,
     id strings, task references, hooks or the tearing mark keeps the invariant. -/
 theorem inv_of_maps {s s' : State} (h : Inv s) (g : Task → Task) (f : Env → Env)
-    (hg : ∀ t, (g t).id = t.id ∧ (g t).idsOk = t.idsOk ∧ (g t).parent = t.parent)
+    (hg : ∀ t, (g t).id = t.id ∧ (t.sound → (g t).sound) ∧ (g t).parent = t.parent)
     (hf : ∀ E, (f E).id = E.id ∧ (f E).tasks = E.tasks ∧ (f E).hooks = E.hooks ∧ (f E).tearing = E.tearing)
     (hr : s'.roster = s.roster.map g) (he : s'.envs = s.envs.map f) (hu : s'.used = s.used)
     (hn : s'.nextTask = s.nextTask) (hc : s'.creating = s.creating) : Inv s' := by
@@ -102,7 +121,7 @@ theorem inv_of_maps {s s' : State} (h : Inv s) (g : Task → Task) (f : Env → 
   have memT : ∀ t' ∈ s'.roster, ∃ t ∈ s.roster, t' = g t := by
     intro t' ht'; rw [hr] at ht'; obtain ⟨t, ht, rfl⟩ := List.mem_map.mp ht'; exact ⟨t, ht, rfl⟩
   constructor
-  · intro t' ht'; obtain ⟨t, ht, rfl⟩ := memT t' ht'; rw [(hg t).2.1]; exact h.idsOk t ht
+  · intro t' ht'; obtain ⟨t, ht, rfl⟩ := memT t' ht'; exact (hg t).2.1 (h.ids t ht)
   · intro t' ht'; obtain ⟨t, ht, rfl⟩ := memT t' ht'; rw [(hg t).1, hn]; exact h.fresh t ht
   · rw [hr, List.map_map]
     have : ((fun x => x.id) ∘ g) = (fun x : Task => x.id) := by funext t; exact (hg t).1
@@ -167,8 +186,8 @@ theorem inv_applyTrans (s : State) (E : Env) (ev : CEv) (fails : List (TaskId ×
     by_cases ht : isTarget E t
     · simp only [ht, if_true]
       cases hl : fails.lookup t.id with
-      | none => simp [Task.idsOk]
-      | some b => cases b <;> simp [Task.idsOk]
+      | none => exact ⟨rfl, sound_congr rfl rfl rfl rfl rfl, rfl⟩
+      | some b => cases b <;> exact ⟨rfl, sound_congr rfl rfl rfl rfl rfl, rfl⟩
     · simp [ht]
   · intro E; simp
   · rfl
@@ -206,8 +225,11 @@ theorem inv_control (s : State) (k : EnvId) (ev : CEv) (fails : List (TaskId × 
 
 theorem inv_mesosStart (s : State) (k : EnvId) (h : Inv s) : Inv (mesosStart s k) := by
   unfold mesosStart
-  apply inv_of_maps h (fun t => if t.id ∈ (List.map (·.id) (s.master.filter (fun m => decide (m.label = k) && decide (m.mesos = .staging)))) then { t with active := true } else t) id
-  · intro t; split <;> simp [Task.idsOk]
+  apply inv_of_maps h (fun t => if t.id ∈ (List.map (·.id) (s.master.filter (fun m => decide (m.label = k) && decide (m.mesos = .staging)))) then { t with active := true, agent := true, executor := true } else t) id
+  · intro t
+    split
+    · exact ⟨rfl, fun hs => ⟨hs.1, hs.2.1, fun _ => ⟨rfl, rfl⟩⟩, rfl⟩
+    · exact ⟨rfl, id, rfl⟩
   · intro E; simp
   · rfl
   · simp
@@ -228,7 +250,7 @@ theorem env?_some {s : State} {k : EnvId} {E : Env} (h : s.env? k = some E) : E 
 theorem inv_release_env {s s' : State} (h : Inv s) (E : Env) (hE : E ∈ s.envs) (hk : E.tearing = false)
     (hp : ∀ p ∈ s.creating, p.id ≠ E.id)
     (g : Task → Task)
-    (hg : ∀ t, (g t).id = t.id ∧ (g t).idsOk = t.idsOk ∧
+    (hg : ∀ t, (g t).id = t.id ∧ (t.sound → (g t).sound) ∧
       ((g t).parent = t.parent ∨ ((g t).parent = none ∧ t.id ∈ E.tasks)))
     (hr : s'.roster = s.roster.map g)
     (hsub : ∀ E' ∈ s'.envs, ∃ E'' ∈ s.envs, E'.id = E''.id ∧ E'.tasks = E''.tasks ∧ E'.hooks = E''.hooks ∧
@@ -240,7 +262,7 @@ theorem inv_release_env {s s' : State} (h : Inv s) (E : Env) (hE : E ∈ s.envs)
   have memT : ∀ t' ∈ s'.roster, ∃ t ∈ s.roster, t' = g t := by
     intro t' ht'; rw [hr] at ht'; obtain ⟨t, ht, rfl⟩ := List.mem_map.mp ht'; exact ⟨t, ht, rfl⟩
   constructor
-  · intro t' ht'; obtain ⟨t, ht, rfl⟩ := memT t' ht'; rw [(hg t).2.1]; exact h.idsOk t ht
+  · intro t' ht'; obtain ⟨t, ht, rfl⟩ := memT t' ht'; exact (hg t).2.1 (h.ids t ht)
   · intro t' ht'; obtain ⟨t, ht, rfl⟩ := memT t' ht'; rw [(hg t).1, hn]; exact h.fresh t ht
   · rw [hr, List.map_map]
     have : ((fun x => x.id) ∘ g) = (fun x : Task => x.id) := by funext t; exact (hg t).1
@@ -273,9 +295,11 @@ theorem inv_release_env {s s' : State} (h : Inv s) (E : Env) (hE : E ∈ s.envs)
   · rw [hc]; exact h.pendClaims
 
 theorem releaseTask_props (e : EnvId) (t : Task) :
-    (releaseTask e t).1.id = t.id ∧ (releaseTask e t).1.idsOk = t.idsOk ∧
+    (releaseTask e t).1.id = t.id ∧ (t.sound → (releaseTask e t).1.sound) ∧
     ((releaseTask e t).1.parent = t.parent ∨ (releaseTask e t).1.parent = none) := by
-  unfold releaseTask; split <;> simp [Task.idsOk]
+  unfold releaseTask; split
+  · exact ⟨rfl, sound_congr rfl rfl rfl rfl rfl, Or.inr rfl⟩
+  · exact ⟨rfl, id, Or.inl rfl⟩
 
 /-- No release error for a task that is the environment's own or nobody's. -/
 theorem releaseOk_of_parent (e : EnvId) (t : Task) (h : t.parent = some e ∨ t.parent = none) : releaseOk e t = true := by
@@ -323,7 +347,7 @@ theorem releaseTasks_roster (s : State) (e : EnvId) (ids : List TaskId) :
     (releaseTasks s e ids).1.roster = s.roster.map (relMap e ids) := rfl
 
 theorem relMap_props (e : EnvId) (ids : List TaskId) (t : Task) :
-    (relMap e ids t).id = t.id ∧ (relMap e ids t).idsOk = t.idsOk ∧
+    (relMap e ids t).id = t.id ∧ (t.sound → (relMap e ids t).sound) ∧
     ((relMap e ids t).parent = t.parent ∨ ((relMap e ids t).parent = none ∧ t.id ∈ ids)) := by
   unfold relMap
   by_cases h : t.id ∈ ids
@@ -393,7 +417,7 @@ theorem inv_tdFinish (s s1 : State) (k : EnvId) (E : Env) (late : Bool) (hf : Li
     Inv (tdFinish s1 k E late hf).1 := by
   subst hEk
   have hmsg := tdMsg_sub s1 E (h.hooksSub E hE)
-  have hg1 : ∀ t, (relMap E.id ids1 t).id = t.id ∧ (relMap E.id ids1 t).idsOk = t.idsOk ∧
+  have hg1 : ∀ t, (relMap E.id ids1 t).id = t.id ∧ (t.sound → (relMap E.id ids1 t).sound) ∧
       ((relMap E.id ids1 t).parent = t.parent ∨ ((relMap E.id ids1 t).parent = none ∧ t.id ∈ E.tasks)) := fun t => by
     obtain ⟨x, y, z⟩ := relMap_props E.id ids1 t
     exact ⟨x, y, z.elim Or.inl (fun z => Or.inr ⟨z.1, hsub1 _ z.2⟩)⟩
@@ -442,7 +466,7 @@ theorem inv_tdFinish (s s1 : State) (k : EnvId) (E : Env) (late : Bool) (hf : Li
       (fun t => by
         obtain ⟨x1, y1, z1⟩ := hg1 t
         obtain ⟨x2, y2, z2⟩ := relMap_props E.id (tdMsg s1 E) (relMap E.id ids1 t)
-        refine ⟨by rw [x2, x1], by rw [y2, y1], ?_⟩
+        refine ⟨by rw [x2, x1], fun hs => y2 (y1 hs), ?_⟩
         rcases z2 with z2 | z2
         · rw [z2]; exact z1
         · right; exact ⟨z2.1, hmsg _ (by rw [← x1]; exact z2.2)⟩)
@@ -600,7 +624,7 @@ theorem inv_of_creating_map {s s' : State} (h : Inv s) (f : Pending → Pending)
   have memP : ∀ p' ∈ s'.creating, ∃ p ∈ s.creating, p' = f p := by
     intro p' hp'; rw [hc] at hp'; obtain ⟨p, hp, rfl⟩ := List.mem_map.mp hp'; exact ⟨p, hp, rfl⟩
   constructor
-  · rw [hr]; exact h.idsOk
+  · rw [hr]; exact h.ids
   · rw [hr, hn]; exact h.fresh
   · rw [hr]; exact h.rosterNodup
   · rw [he, hn]; exact h.envFresh
@@ -625,7 +649,7 @@ theorem inv_of_creating_subset {s s' : State} (h : Inv s)
     (hu : s'.used = s.used) (hn : s'.nextTask = s.nextTask) : Inv s' := by
   have memP : ∀ p ∈ s'.creating, p ∈ s.creating := fun p hp => hc.subset hp
   constructor
-  · rw [hr]; exact h.idsOk
+  · rw [hr]; exact h.ids
   · rw [hr, hn]; exact h.fresh
   · rw [hr]; exact h.rosterNodup
   · rw [he, hn]; exact h.envFresh
@@ -650,7 +674,7 @@ theorem inv_createBegin (s : State) (k : EnvId) (spec : EnvSpec) (h : Inv s) : I
   rename_i hk
   have h0 : Inv { s with used := k :: s.used } := by
     constructor
-    · exact h.idsOk
+    · exact h.ids
     · exact h.fresh
     · exact h.rosterNodup
     · exact h.envFresh
@@ -668,7 +692,7 @@ theorem inv_createBegin (s : State) (k : EnvId) (spec : EnvSpec) (h : Inv s) : I
   split
   · exact h0
   · constructor
-    · exact h0.idsOk
+    · exact h0.ids
     · exact h0.fresh
     · exact h0.rosterNodup
     · exact h0.envFresh
@@ -733,7 +757,7 @@ theorem inv_createInsert (s : State) (k : EnvId) (h : Inv s) : Inv (createInsert
   · exact inv_dropPending s k h
   have hkfresh : ∀ E ∈ s.envs, E.id ≠ k := fun E hE => hpk ▸ h.pendFresh p hpm hpi E hE
   constructor
-  · exact h.idsOk
+  · exact h.ids
   · exact h.fresh
   · exact h.rosterNodup
   · intro E hE
@@ -809,7 +833,7 @@ theorem locked_of_parent (t : Task) (hi : t.idsOk = true) (e : EnvId) (hp : t.pa
 /-- acquireTasks' commit: claimed (unlocked) tasks and newly launched tasks become the
     tasks of the environment being created. -/
 theorem inv_acquire (s : State) (k : EnvId) (h : Inv s) (hp : ∀ p ∈ s.creating, p.id ≠ k)
-    (cids : List TaskId) (hc : ∀ c ∈ cids, ∃ t ∈ s.roster, t.id = c ∧ t.isLocked = false)
+    (cids : List TaskId) (hc : ∀ c ∈ cids, ∃ t ∈ s.roster, t.id = c ∧ t.claimable = true)
     (newTasks : List Task) (n : Nat)
     (hnew : ∀ nt ∈ newTasks, nt.idsOk = true ∧ nt.parent = some k ∧ s.nextTask ≤ nt.id ∧ nt.id < s.nextTask + n)
     (hnd : (newTasks.map (·.id)).Nodup)
@@ -823,8 +847,9 @@ theorem inv_acquire (s : State) (k : EnvId) (h : Inv s) (hp : ∀ p ∈ s.creati
     intro c hcm E hE ht hx
     obtain ⟨t, htm, rfl, hl⟩ := hc c hcm
     have := h.owned E hE ht t htm hx
-    rw [locked_of_parent t (h.idsOk t htm) _ this] at hl
-    exact absurd hl (by simp)
+    simp only [Task.claimable, Bool.and_eq_true, Bool.not_eq_true', decide_eq_true_eq] at hl
+    rw [locked_of_parent t (idsOk_of_sound_active t (h.ids t htm) hl.1.2) _ this] at hl
+    exact absurd hl.1.1 (by simp)
   have idsFree : ∀ i ∈ ids, ∀ E ∈ s.envs, E.tearing = false → i ∉ E.tasks := by
     intro i hi E hE ht hx
     rcases hids i hi with hcm | ⟨hge, _⟩
@@ -850,9 +875,9 @@ theorem inv_acquire (s : State) (k : EnvId) (h : Inv s) (hp : ∀ p ∈ s.creati
   constructor
   · intro t' ht'
     rcases memT t' ht' with ⟨t, ht, ⟨_, rfl⟩ | ⟨_, rfl⟩⟩ | hn
-    · simpa [Task.idsOk] using h.idsOk t ht
-    · exact h.idsOk t ht
-    · exact (hnew t' hn).1
+    · exact sound_congr rfl rfl rfl rfl rfl (h.ids t ht)
+    · exact h.ids t ht
+    · exact sound_of_idsOk _ (hnew t' hn).1
   · intro t' ht'
     show t'.id < s.nextTask + n
     rcases memT t' ht' with ⟨t, ht, ⟨_, rfl⟩ | ⟨_, rfl⟩⟩ | hn
@@ -987,15 +1012,13 @@ theorem claimLoop_sound (roster : List Task) (descs : List (Nat × RoleSpec)) (a
     · exact ih _ c hc
 
 theorem computeClaims_sound (s : State) (spec : EnvSpec) :
-    ∀ c ∈ computeClaims s spec, ∃ t ∈ s.roster, t.id = c.2 ∧ t.isLocked = false := by
+    ∀ c ∈ computeClaims s spec, ∃ t ∈ s.roster, t.id = c.2 ∧ t.claimable = true := by
   intro c hc
   unfold computeClaims at hc
   split at hc
   · rcases claimLoop_sound _ _ _ c hc with h | ⟨t, ht, he, hcl⟩
     · simp at h
-    · refine ⟨t, ht, he, ?_⟩
-      simp only [Task.claimable, Bool.and_eq_true, Bool.not_eq_true'] at hcl
-      exact hcl.1.1
+    · exact ⟨t, ht, he, hcl⟩
   · simp at hc
 
 end Own
@@ -1018,7 +1041,7 @@ theorem lookup_mem {α β} [BEq α] [LawfulBEq α] (l : List (α × β)) (a : α
 
 theorem inv_acquire_fn (s : State) (k : EnvId) (spec : EnvSpec) (claims : List (Nat × TaskId)) (o : SettleOracle)
     (h : Inv s) (hp : ∀ p ∈ s.creating, p.id ≠ k)
-    (hc : ∀ c ∈ claims, ∃ t ∈ s.roster, t.id = c.2 ∧ t.isLocked = false) :
+    (hc : ∀ c ∈ claims, ∃ t ∈ s.roster, t.id = c.2 ∧ t.claimable = true) :
     Inv (acquire s k spec claims o).s := by
   unfold acquire
   simp only []
@@ -1056,6 +1079,96 @@ end Own
 
 namespace Own
 
+/-! ### executor / agent lost, the workflow watcher -/
+
+theorem lose_props (agent : Bool) (t : Task) :
+    (t.lose agent).id = t.id ∧ (t.sound → (t.lose agent).sound) ∧ (t.lose agent).parent = t.parent ∧
+    (t.lose agent).host = t.host ∧ (t.lose agent).active = false := by
+  unfold Task.lose
+  split
+  · exact ⟨rfl, fun hs => ⟨hs.1, hs.2.1, fun ha => by simp at ha⟩, rfl, rfl, rfl⟩
+  · exact ⟨rfl, fun hs => ⟨hs.1, hs.2.1, fun ha => by simp at ha⟩, rfl, rfl, rfl⟩
+
+theorem hostLost_roster (s : State) (h : Host) (agent : Bool) :
+    (hostLost s h agent).roster = s.roster.map (fun t => if t.hitBy agent h then t.lose agent else t) := rfl
+
+theorem inv_hostLost (s : State) (h : Host) (agent : Bool) (hi : Inv s) : Inv (hostLost s h agent) := by
+  apply inv_of_maps hi (fun t => if t.hitBy agent h then t.lose agent else t) id
+  · intro t
+    split
+    · exact ⟨(lose_props agent t).1, (lose_props agent t).2.1, (lose_props agent t).2.2.1⟩
+    · exact ⟨rfl, id, rfl⟩
+  · intro E; simp
+  · rfl
+  · simp [hostLost]
+  · rfl
+  · rfl
+  · rfl
+
+/-- The roster after the watcher's STOP. -/
+def watchMap (E : Env) (fails : List (TaskId × Bool)) (t : Task) : Task :=
+  if decide (t.id ∈ E.tasks) && decide (t.parent = some E.id) && decide (t.state = .RUNNING) then
+    match fails.lookup t.id with
+    | some true => { t with state := .ERROR }
+    | some false => t
+    | none => { t with state := .CONFIGURED }
+  else t
+
+theorem watchMap_props (E : Env) (fails : List (TaskId × Bool)) (t : Task) :
+    (watchMap E fails t).id = t.id ∧ (t.sound → (watchMap E fails t).sound) ∧ (watchMap E fails t).parent = t.parent ∧
+    (watchMap E fails t).idsOk = t.idsOk ∧ (watchMap E fails t).active = t.active ∧ (watchMap E fails t).host = t.host := by
+  unfold watchMap
+  split
+  · cases hl : fails.lookup t.id with
+    | none => exact ⟨rfl, sound_congr rfl rfl rfl rfl rfl, rfl, rfl, rfl, rfl⟩
+    | some b => cases b <;> exact ⟨rfl, sound_congr rfl rfl rfl rfl rfl, rfl, rfl, rfl, rfl⟩
+  · exact ⟨rfl, id, rfl, rfl, rfl, rfl⟩
+
+theorem watchError_eq (s : State) (k : EnvId) (fails : List (TaskId × Bool)) (E : Env) (hE : s.env? k = some E)
+    (hte : E.tearing = false) :
+    watchError s k fails = setEnv { s with roster := s.roster.map (watchMap E fails) } k (fun X => { X with state := .ERROR }) := by
+  unfold watchError
+  rw [hE]
+  simp only [hte, Bool.false_eq_true, if_false]
+  rfl
+
+theorem inv_watchError (s : State) (k : EnvId) (fails : List (TaskId × Bool)) (h : Inv s) : Inv (watchError s k fails) := by
+  cases hE : s.env? k with
+  | none => unfold watchError; rw [hE]; exact h
+  | some E =>
+    by_cases hte : E.tearing = true
+    · unfold watchError; rw [hE]; simp only [hte, if_true]; exact h
+    · rw [watchError_eq s k fails E hE (by simpa using hte)]
+      apply inv_setEnv_state
+      apply inv_of_maps h (watchMap E fails) id
+      · intro t; exact ⟨(watchMap_props E fails t).1, (watchMap_props E fails t).2.1, (watchMap_props E fails t).2.2.1⟩
+      · intro E'; simp
+      · rfl
+      · simp
+      · rfl
+      · rfl
+      · rfl
+
+theorem lostAll_nil (s : State) : lostAll s [] = s := rfl
+theorem lostAll_cons (s : State) (l : Host × Bool) (ls : List (Host × Bool)) :
+    lostAll s (l :: ls) = lostAll (hostLost s l.1 l.2) ls := rfl
+
+/-- Lost executors / agents touch roster, master and the set of hosts only. -/
+theorem lostAll_frame (s : State) (ls : List (Host × Bool)) :
+    (lostAll s ls).envs = s.envs ∧ (lostAll s ls).creating = s.creating ∧ (lostAll s ls).killLog = s.killLog ∧
+    (lostAll s ls).reuse = s.reuse ∧ (lostAll s ls).crashed = s.crashed ∧ (lostAll s ls).dead = s.dead := by
+  induction ls generalizing s with
+  | nil => exact ⟨rfl, rfl, rfl, rfl, rfl, rfl⟩
+  | cons l rest ih =>
+    rw [lostAll_cons]
+    obtain ⟨a, b, c, d, e, f⟩ := ih (hostLost s l.1 l.2)
+    exact ⟨a, b, c, d, e, f⟩
+
+theorem inv_lostAll (s : State) (ls : List (Host × Bool)) (h : Inv s) : Inv (lostAll s ls) := by
+  induction ls generalizing s with
+  | nil => exact h
+  | cons l rest ih => rw [lostAll_cons]; exact ih _ (inv_hostLost s l.1 l.2 h)
+
 theorem killTasks_creating (s : State) (ids : List TaskId) : (killTasks s ids).creating = s.creating := rfl
 
 theorem inv_createFail (s : State) (k : EnvId) (ids : List TaskId) (late : Bool) (res : Res) (hf : List TaskId)
@@ -1074,13 +1187,14 @@ theorem inv_createConfigure (s : State) (k : EnvId) (spec : EnvSpec) (a : Acq) (
   · exact h
   · rename_i E _
     simp only []
-    have h3 : Inv (setEnv (applyTrans s { E with state := .DEPLOYED } .CONFIGURE
+    have h3 : Inv (lostAll (setEnv (applyTrans s { E with state := .DEPLOYED } .CONFIGURE
           (o.cfgFails.filterMap (fun f => (a.idOf f.1).map (fun t => (t, f.2))))).1 k
-        (fun X => { X with pending := X.pending + callCount spec, started := X.started + callCount spec })) :=
-      inv_setEnv _ _ _ (inv_applyTrans s _ _ _ h) (fun _ => ⟨rfl, rfl, rfl, rfl⟩)
+        (fun X => { X with pending := X.pending + callCount spec, started := X.started + callCount spec })) o.lost) :=
+      inv_lostAll _ _ (inv_setEnv _ _ _ (inv_applyTrans s _ _ _ h) (fun _ => ⟨rfl, rfl, rfl, rfl⟩))
     split
     · exact inv_setEnv_state _ _ _ h3
-    · exact inv_createFail _ k a.ids o.late .errConfigure o.hookFails h3 hp
+    · exact inv_createFail _ k a.ids o.late .errConfigure o.hookFails h3
+        (by rw [(lostAll_frame _ _).2.1]; exact hp)
 
 theorem acquire_creating (s : State) (k : EnvId) (spec : EnvSpec) (claims : List (Nat × TaskId)) (o : SettleOracle) :
     (acquire s k spec claims o).s.creating = s.creating := rfl
@@ -1137,6 +1251,9 @@ theorem inv_step (s : State) (st : Step) (hst : st.isClaim = false) (h : Inv s) 
     | cleanup => exact inv_cleanup s h
     | killIds ids => exact inv_cleanupTasks s ids h
     | mesosStart k => exact inv_mesosStart s k h
+    | execLost hh => exact inv_hostLost s hh false h
+    | agentLost hh => exact inv_hostLost s hh true h
+    | watchError k fails => exact inv_watchError s k fails h
 
 theorem inv_run (s : State) (steps : List Step) (hs : noClaimSteps steps = true) (h : Inv s) : Inv (run s steps) := by
   induction steps generalizing s with
@@ -1301,8 +1418,8 @@ theorem killOk_createConfigure (s : State) (k : EnvId) (spec : EnvSpec) (a : Acq
   · exact h
   · simp only []
     split
-    · exact killOk_congr h rfl
-    · exact killOk_createFail _ _ _ _ _ _ (killOk_congr h rfl)
+    · exact killOk_congr h (by simp only [setEnv]; exact (lostAll_frame _ _).2.2.1)
+    · exact killOk_createFail _ _ _ _ _ _ (killOk_congr h (lostAll_frame _ _).2.2.1)
 
 theorem acquire_killLog (s : State) (k : EnvId) (spec : EnvSpec) (claims : List (Nat × TaskId)) (o : SettleOracle) :
     (acquire s k spec claims o).s.killLog = s.killLog := rfl
@@ -1372,6 +1489,14 @@ theorem killOk_step (s : State) (st : Step) (h : KillOk s) : KillOk (step s st).
     | cleanup => exact killOk_cleanup s h
     | killIds ids => exact killOk_cleanupTasks s ids h
     | mesosStart k => exact killOk_congr h rfl
+    | execLost hh => exact killOk_congr h rfl
+    | agentLost hh => exact killOk_congr h rfl
+    | watchError k fails =>
+      refine killOk_congr h ?_
+      simp only [watchError]
+      split
+      · rfl
+      · split <;> rfl
 
 theorem killOk_run (s : State) (steps : List Step) (h : KillOk s) : KillOk (run s steps) := by
   induction steps generalizing s with
@@ -1562,10 +1687,14 @@ theorem sub_createConfigure (s : State) (k : EnvId) (spec : EnvSpec) (a : Acq) (
   · exact Sub.refl s
   · rename_i E _
     simp only []
-    have h3 : Sub s (setEnv (applyTrans s { E with state := .DEPLOYED } .CONFIGURE
+    have h2 : Sub s (setEnv (applyTrans s { E with state := .DEPLOYED } .CONFIGURE
           (o.cfgFails.filterMap (fun f => (a.idOf f.1).map (fun t => (t, f.2))))).1 k
         (fun X => { X with pending := X.pending + callCount spec, started := X.started + callCount spec })) :=
       sub_setEnv_over s _ k _ (fun _ => ⟨rfl, rfl⟩) rfl rfl
+    have h3 : Sub s (lostAll (setEnv (applyTrans s { E with state := .DEPLOYED } .CONFIGURE
+          (o.cfgFails.filterMap (fun f => (a.idOf f.1).map (fun t => (t, f.2))))).1 k
+        (fun X => { X with pending := X.pending + callCount spec, started := X.started + callCount spec })) o.lost) :=
+      h2.trans (sub_of_same (lostAll_frame _ _).1 (lostAll_frame _ _).2.1)
     split
     · exact h3.trans (sub_setEnv_state _ _ _)
     · exact h3.trans (sub_createFail _ _ _ _ _ _)
@@ -1651,6 +1780,17 @@ theorem sub_step (s : State) (st : Step)
     | cleanup => exact sub_doKill s _
     | killIds ids => exact sub_cleanupTasks s ids
     | mesosStart k => exact sub_of_same rfl rfl
+    | execLost hh => exact sub_of_same rfl rfl
+    | agentLost hh => exact sub_of_same rfl rfl
+    | watchError k fails =>
+      simp only [watchError]
+      split
+      · exact Sub.refl s
+      · split
+        · exact Sub.refl s
+        · rename_i E _ _
+          have h1 : Sub s { s with roster := s.roster.map (watchMap E fails) } := sub_of_same rfl rfl
+          exact h1.trans (sub_setEnv_state _ _ _)
 
 end Own
 
@@ -1893,9 +2033,15 @@ theorem rc_createConfigure (s : State) (k : EnvId) (spec : EnvSpec) (a : Acq) (o
   split
   · exact RC.refl s
   · simp only []
+    have h3 : ∀ s0 : State, s0.reuse = s.reuse → s0.crashed = s.crashed → RC s (lostAll s0 o.lost) := fun s0 a b =>
+      ⟨(lostAll_frame s0 o.lost).2.2.2.1.trans a, (lostAll_frame s0 o.lost).2.2.2.2.1.trans b⟩
+    have key : ∀ (s0 : State), s0.reuse = s.reuse → s0.crashed = s.crashed →
+        (∀ f, RC s (setEnv (lostAll s0 o.lost) k f)) ∧
+        (∀ ids late res hf, RC s (createFail (lostAll s0 o.lost) k ids late res hf).1) := fun s0 a b =>
+      ⟨fun f => (h3 s0 a b).trans ⟨rfl, rfl⟩, fun ids late res hf => (h3 s0 a b).trans (rc_createFail _ _ _ _ _ _)⟩
     split
-    · exact ⟨rfl, rfl⟩
-    · exact (show RC s _ from ⟨rfl, rfl⟩).trans (rc_createFail _ _ _ _ _ _)
+    · exact (key _ (by rfl) (by rfl)).1 _
+    · exact (key _ (by rfl) (by rfl)).2 _ _ _ _
 
 /-- Without reuseUnlockedTasks a settling creation does not end the process. -/
 theorem crash_free_settle (s : State) (k : EnvId) (o : SettleOracle) (hr : s.reuse = false) (hc : s.crashed = false) :
@@ -2177,7 +2323,7 @@ theorem release_all (s : State) (k : EnvId) (E : Env) (hwf : envWf s k E.tasks =
       have := hP2 t ht
       rcases this with h | h
       · exact absurd hin h
-      · exact h.1
+      · exact h
     have hok : releaseOk k t = true := releaseOk_of_parent k t (Or.inl hpar)
     simp only [relAll, hin, if_true]
     by_cases hpl : t.id ∈ tdPlain E
@@ -2272,8 +2418,8 @@ theorem hyps_transfer {s s1 : State} (h : SameOwn s s1) (k : EnvId) (tasks : Lis
       simp [a1, a6, a7, a8]
     have e1 : (fun t => decide (t.parent ≠ some k) || decide (t.id ∈ tasks)) ∘ g = (fun t => decide (t.parent ≠ some k) || decide (t.id ∈ tasks)) := by
       funext t; simp [(hg t).1, (hg t).2.1]
-    have e2 : (fun t => decide (t.id ∉ tasks) || (decide (t.parent = some k) && t.idsOk)) ∘ g = (fun t => decide (t.id ∉ tasks) || (decide (t.parent = some k) && t.idsOk)) := by
-      funext t; simp [(hg t).1, (hg t).2.1, (hg t).2.2.1]
+    have e2 : (fun t => decide (t.id ∉ tasks) || decide (t.parent = some k)) ∘ g = (fun t => decide (t.id ∉ tasks) || decide (t.parent = some k)) := by
+      funext t; simp [(hg t).1, (hg t).2.1]
     have e3 : ∀ m : MTask, ((fun t => decide (t.id = m.id)) ∘ g) = (fun t => decide (t.id = m.id)) := by
       intro m; funext t; simp [(hg t).1]
     have e4 : ((fun x => x.id) ∘ g) = (fun x : Task => x.id) := by funext t; exact (hg t).1
@@ -2298,7 +2444,7 @@ theorem wf_parent (s : State) (k : EnvId) (tasks : List TaskId) (hwf : envWf s k
   intro t ht hin
   rcases hwf.1.1.1.1.2 t ht with h | h
   · exact absurd hin h
-  · exact h.1
+  · exact h
 
 /-- What a teardown that runs to completion leaves, under the well-formedness and
     hook hypotheses: exactly the environment's tasks released, the master and the kill log
@@ -2470,8 +2616,9 @@ theorem clean_core (s D F : State) (k : EnvId) (keep : Bool) (E : Env)
       by_cases hl : m'.label = k
       · -- a task launched for k: it is one of E's tasks and has a roster entry
         have hmk : m.label = k := by rw [← hlab]; exact hl
-        rcases hP3 m hm with h | ⟨hin, t, ht, hte⟩
+        rcases hP3 m hm with h | ⟨hin, hterm0 | ⟨t, ht, hte⟩⟩
         · exact absurd hmk h
+        · left; right; exact hterm hterm0
         · have hte' : t.id = m.id := by simpa using hte
           have ht' : relAll E.tasks t ∈ D.roster := by rw [hD1]; exact List.mem_map_of_mem ht
           have hrel : relAll E.tasks t = { t with parent := none } := by simp [relAll, hte', hin]
@@ -2779,5 +2926,233 @@ theorem createFail_clean (s : State) (k : EnvId) (late : Bool) (res : Res) (hf :
     obtain ⟨a1, a2, _, a4, _, a6⟩ := teardown_done_state _ k true late hf { E with state := .ERROR } hE1 hwf1 hrel1 hhk (Or.inr h)
     exact clean_of_done_kill _ _ k { E with state := .ERROR } hwf1 hfa1 a1 a2 a4 a6
   · rw [h]; intro hc; exact absurd rfl hc
+
+end Own
+
+namespace Own
+
+/-! ### C06: a lost executor / agent, the watcher, and the hypotheses of the clean-destroy theorem -/
+
+theorem hostLost_mem_roster {s : State} {h : Host} {agent : Bool} {t' : Task} (ht' : t' ∈ (hostLost s h agent).roster) :
+    ∃ t ∈ s.roster, (t' = t ∧ t.hitBy agent h = false) ∨ (t' = t.lose agent ∧ t.hitBy agent h = true) := by
+  rw [hostLost_roster] at ht'
+  obtain ⟨t, ht, rfl⟩ := List.mem_map.mp ht'
+  refine ⟨t, ht, ?_⟩
+  by_cases hh : t.hitBy agent h = true
+  · right; simp [hh]
+  · left; simp [hh]
+
+theorem hostLost_roster_ids (s : State) (h : Host) (agent : Bool) :
+    (hostLost s h agent).roster.map (·.id) = s.roster.map (·.id) := by
+  rw [hostLost_roster, List.map_map]
+  apply List.map_congr_left
+  intro t _
+  simp only [Function.comp]
+  split
+  · exact (lose_props agent t).1
+  · rfl
+
+theorem hostLost_mem_master {s : State} {h : Host} {agent : Bool} {m' : MTask} (hm' : m' ∈ (hostLost s h agent).master) :
+    ∃ m ∈ s.master, m'.id = m.id ∧ m'.label = m.label ∧ m'.host = m.host ∧
+      (m.mesos = .terminal → m'.mesos = .terminal) ∧ (m.host = h → m'.mesos = .terminal) := by
+  simp only [hostLost, List.mem_map] at hm'
+  obtain ⟨m, hm, rfl⟩ := hm'
+  refine ⟨m, hm, ?_⟩
+  by_cases hh : m.host = h
+  · simp [hh]
+  · simp [hh]
+
+theorem envWf_hostLost (s : State) (h : Host) (agent : Bool) (k : EnvId) (tasks : List TaskId)
+    (hwf : envWf s k tasks = true) : envWf (hostLost s h agent) k tasks = true := by
+  simp only [envWf, Bool.and_eq_true, List.all_eq_true, Bool.or_eq_true, decide_eq_true_eq, List.any_eq_true] at hwf ⊢
+  obtain ⟨⟨⟨⟨⟨h1, h2⟩, h3⟩, h4⟩, h5⟩, h6⟩ := hwf
+  refine ⟨⟨⟨⟨⟨?_, ?_⟩, ?_⟩, ?_⟩, h5⟩, h6⟩
+  · intro t' ht'
+    obtain ⟨t, ht, ⟨e, _⟩ | ⟨e, _⟩⟩ := hostLost_mem_roster ht' <;> rw [e]
+    · exact h1 t ht
+    · rw [(lose_props agent t).1, (lose_props agent t).2.2.1]; exact h1 t ht
+  · intro t' ht'
+    obtain ⟨t, ht, ⟨e, _⟩ | ⟨e, _⟩⟩ := hostLost_mem_roster ht' <;> rw [e]
+    · exact h2 t ht
+    · rw [(lose_props agent t).1, (lose_props agent t).2.2.1]; exact h2 t ht
+  · intro m' hm'
+    obtain ⟨m, hm, a1, a2, _, a4, _⟩ := hostLost_mem_master hm'
+    rw [a1, a2]
+    rcases h3 m hm with hl | ⟨hin, hterm | ⟨t, ht, hte⟩⟩
+    · left; exact hl
+    · right; exact ⟨hin, Or.inl (a4 hterm)⟩
+    · right
+      refine ⟨hin, Or.inr ⟨if t.hitBy agent h then t.lose agent else t, ?_, ?_⟩⟩
+      · rw [hostLost_roster]; exact List.mem_map_of_mem ht
+      · split
+        · rw [(lose_props agent t).1]; exact hte
+        · exact hte
+  · rw [hostLost_roster_ids]; exact h4
+
+theorem hostsAgree_hostLost (s : State) (h : Host) (agent : Bool) (tasks : List TaskId)
+    (hag : hostsAgree s tasks = true) : hostsAgree (hostLost s h agent) tasks = true := by
+  simp only [hostsAgree, List.all_eq_true, Bool.or_eq_true, decide_eq_true_eq] at hag ⊢
+  intro t' ht'
+  have key : ∀ t ∈ s.roster, t'.id = t.id → t'.host = t.host →
+      (t'.id ∉ tasks ∨ ∀ m' ∈ (hostLost s h agent).master, m'.id ≠ t'.id ∨ m'.host = t'.host) := by
+    intro t ht e1 e2
+    rcases hag t ht with hn | hall
+    · left; rw [e1]; exact hn
+    · right
+      intro m' hm'
+      obtain ⟨m, hm, a1, _, a3, _, _⟩ := hostLost_mem_master hm'
+      rw [a1, a3, e1, e2]
+      exact hall m hm
+  obtain ⟨t, ht, ⟨e, _⟩ | ⟨e, _⟩⟩ := hostLost_mem_roster ht'
+  · exact key t ht (by rw [e]) (by rw [e])
+  · exact key t ht (by rw [e]; exact (lose_props agent t).1) (by rw [e]; exact (lose_props agent t).2.2.2.1)
+
+/-- A task hit by the failure has ended at the master; the others are as active as before and
+    the master's rows have only moved towards "ended". -/
+theorem statusFaithful_hostLost (s : State) (h : Host) (agent : Bool) (tasks : List TaskId)
+    (hag : hostsAgree s tasks = true) (hf : statusFaithful s tasks = true) :
+    statusFaithful (hostLost s h agent) tasks = true := by
+  simp only [hostsAgree, List.all_eq_true, Bool.or_eq_true, decide_eq_true_eq] at hag
+  simp only [statusFaithful, List.all_eq_true, Bool.or_eq_true, decide_eq_true_eq] at hf ⊢
+  intro t' ht'
+  obtain ⟨t, ht, ⟨e, _⟩ | ⟨e, hhit⟩⟩ := hostLost_mem_roster ht' <;> rw [e]
+  · rcases hf t ht with (hn | ha) | hall
+    · left; left; exact hn
+    · left; right; exact ha
+    · right
+      intro m' hm'
+      obtain ⟨m, hm, a1, _, _, a4, _⟩ := hostLost_mem_master hm'
+      rw [a1]
+      rcases hall m hm with hne | hterm
+      · left; exact hne
+      · right; exact a4 hterm
+  · by_cases hin : t.id ∈ tasks
+    · right
+      intro m' hm'
+      obtain ⟨m, hm, a1, _, _, _, a5⟩ := hostLost_mem_master hm'
+      rw [a1, (lose_props agent t).1]
+      by_cases hid : m.id = t.id
+      · right
+        apply a5
+        have hth : t.host = h := by
+          simp only [Task.hitBy, Bool.and_eq_true, decide_eq_true_eq] at hhit
+          exact hhit.1
+        rcases hag t ht with hn | hall
+        · exact absurd hin hn
+        · rcases hall m hm with hne | hh
+          · exact absurd hid hne
+          · rw [hh, hth]
+      · left; exact hid
+    · left; left; rw [(lose_props agent t).1]; exact hin
+
+theorem env?_hostLost (s : State) (h : Host) (agent : Bool) (k : EnvId) : (hostLost s h agent).env? k = s.env? k := rfl
+
+/-- The watcher's reaction changes task states and the environment's state only. -/
+theorem sameOwn_watchError (s : State) (k : EnvId) (fails : List (TaskId × Bool)) : SameOwn s (watchError s k fails) := by
+  cases hE : s.env? k with
+  | none => unfold watchError; rw [hE]; exact SameOwn.refl s
+  | some E =>
+    by_cases hte : E.tearing = true
+    · unfold watchError; rw [hE]; simp only [hte, if_true]; exact SameOwn.refl s
+    · rw [watchError_eq s k fails E hE (by simpa using hte)]
+      refine SameOwn.trans (b := { s with roster := s.roster.map (watchMap E fails) }) ?_ (sameOwn_setEnv_state _ _ _)
+      refine ⟨⟨watchMap E fails, ?_, rfl⟩, rfl, rfl, rfl, ⟨id, fun _ => ⟨rfl, rfl, rfl, rfl, rfl, rfl, rfl, rfl⟩, by simp⟩⟩
+      intro t
+      obtain ⟨a, _, c, d, e, _⟩ := watchMap_props E fails t
+      exact ⟨a, c, d, e⟩
+
+theorem hostsAgree_sameOwn_hosts {s s1 : State} (tasks : List TaskId)
+    (g : Task → Task) (hg : ∀ t, (g t).id = t.id ∧ (g t).host = t.host) (hr : s1.roster = s.roster.map g)
+    (hm : s1.master = s.master) : hostsAgree s1 tasks = hostsAgree s tasks := by
+  simp only [hostsAgree, hr, hm, List.all_map]
+  congr 1
+  funext t
+  simp [(hg t).1, (hg t).2]
+
+theorem hostsAgree_watchError (s : State) (k : EnvId) (fails : List (TaskId × Bool)) (tasks : List TaskId) :
+    hostsAgree (watchError s k fails) tasks = hostsAgree s tasks := by
+  cases hE : s.env? k with
+  | none => unfold watchError; rw [hE]
+  | some E =>
+    by_cases hte : E.tearing = true
+    · unfold watchError; rw [hE]; simp only [hte, if_true]
+    · rw [watchError_eq s k fails E hE (by simpa using hte)]
+      exact hostsAgree_sameOwn_hosts tasks (watchMap E fails)
+        (fun t => ⟨(watchMap_props E fails t).1, (watchMap_props E fails t).2.2.2.2.2⟩) rfl rfl
+
+
+/-- The steps the environment does not ask for: an executor or agent is lost, a watcher reacts. -/
+def Step.isLoss : Step → Bool
+  | .execLost _ | .agentLost _ | .watchError _ _ => true
+  | _ => false
+
+/-- What such steps keep of a listed environment: it stays listed with the same task and hook
+    references, and the bookkeeping hypotheses of the clean-destroy theorem still hold. -/
+structure LossKeeps (s : State) (k : EnvId) (tasks : List TaskId) (hooks : List HookRef) : Prop where
+  listed : ∃ E, s.env? k = some E ∧ E.tasks = tasks ∧ E.hooks = hooks ∧ E.tearing = false
+  wf : envWf s k tasks = true
+  hosts : hostsAgree s tasks = true
+  faithful : statusFaithful s tasks = true
+
+theorem lossKeeps_hostLost (s : State) (h : Host) (agent : Bool) (k : EnvId) (tasks : List TaskId) (hooks : List HookRef)
+    (hk : LossKeeps s k tasks hooks) : LossKeeps (hostLost s h agent) k tasks hooks :=
+  ⟨hk.listed, envWf_hostLost s h agent k tasks hk.wf, hostsAgree_hostLost s h agent tasks hk.hosts,
+    statusFaithful_hostLost s h agent tasks hk.hosts hk.faithful⟩
+
+theorem lossKeeps_watchError (s : State) (k' : EnvId) (fails : List (TaskId × Bool)) (k : EnvId) (tasks : List TaskId)
+    (hooks : List HookRef) (hk : LossKeeps s k tasks hooks) : LossKeeps (watchError s k' fails) k tasks hooks := by
+  have hso := sameOwn_watchError s k' fails
+  obtain ⟨t1, t2, _⟩ := hyps_transfer hso k tasks hooks
+  obtain ⟨E, hE, a, b, c⟩ := hk.listed
+  obtain ⟨E1, hE1, _, a1, b1, c1⟩ := env?_sameOwn hso k E hE
+  exact ⟨⟨E1, hE1, a1.trans a, b1.trans b, c1.trans c⟩, by rw [t1]; exact hk.wf,
+    by rw [hostsAgree_watchError]; exact hk.hosts, by rw [t2]; exact hk.faithful⟩
+
+theorem lossKeeps_step (s : State) (st : Step) (hl : st.isLoss = true) (k : EnvId) (tasks : List TaskId) (hooks : List HookRef)
+    (hk : LossKeeps s k tasks hooks) : LossKeeps (step s st).1 k tasks hooks := by
+  unfold step
+  split
+  · exact hk
+  · cases st with
+    | execLost h => exact lossKeeps_hostLost s h false k tasks hooks hk
+    | agentLost h => exact lossKeeps_hostLost s h true k tasks hooks hk
+    | watchError k' fails => exact lossKeeps_watchError s k' fails k tasks hooks hk
+    | _ => simp [Step.isLoss] at hl
+
+theorem lossKeeps_run (steps : List Step) (hl : steps.all Step.isLoss = true) (s : State) (k : EnvId) (tasks : List TaskId)
+    (hooks : List HookRef) (hk : LossKeeps s k tasks hooks) : LossKeeps (run s steps) k tasks hooks := by
+  induction steps generalizing s with
+  | nil => exact hk
+  | cons st rest ih =>
+    simp only [List.all_cons, Bool.and_eq_true] at hl
+    exact ih hl.2 _ (lossKeeps_step s st hl.1 k tasks hooks hk)
+
+/-- A destroy that answers success after any number of lost executors / agents and watcher
+    reactions leaves the environment clean, provided its DESTROY hooks are still releasable. -/
+theorem destroy_after_loss_clean (s : State) (steps : List Step) (hl : steps.all Step.isLoss = true)
+    (k : EnvId) (force allow keep : Bool) (o : DOracle) (E : Env)
+    (hE : s.env? k = some E) (hte : E.tearing = false) (hwf : envWf s k E.tasks = true) (hag : hostsAgree s E.tasks = true)
+    (hfaith : statusFaithful s E.tasks = true) (hhk : ∀ h ∈ E.hooks, h.task ∈ E.tasks)
+    (hrel : hooksReleasable (run s steps) E.hooks = true)
+    (hok : (destroy (run s steps) k force allow keep o).2.1 = .ok) :
+    cleanAfter k keep (viewOf (destroy (run s steps) k force allow keep o).1) = true := by
+  have hk := lossKeeps_run steps hl s k E.tasks E.hooks ⟨⟨E, hE, rfl, rfl, hte⟩, hwf, hag, hfaith⟩
+  obtain ⟨E', hE', a, b, _⟩ := hk.listed
+  exact destroy_clean _ k force allow keep o E' hE' (by rw [a]; exact hk.wf) (by rw [a]; exact hk.faithful)
+    (by rw [b]; exact hrel) (by rw [a, b]; exact hhk) hok
+
+/-- The same for the failure tail of a creation. -/
+theorem createFail_after_loss_clean (s : State) (steps : List Step) (hl : steps.all Step.isLoss = true)
+    (k : EnvId) (late : Bool) (res : Res) (hf : List TaskId) (E : Env)
+    (hE : s.env? k = some E) (hte : E.tearing = false) (hwf : envWf s k E.tasks = true) (hag : hostsAgree s E.tasks = true)
+    (hfaith : statusFaithful s E.tasks = true) (hhk : ∀ h ∈ E.hooks, h.task ∈ E.tasks)
+    (hrel : hooksReleasable (run s steps) E.hooks = true)
+    (hnh : (createFail (run s steps) k E.tasks late res hf).2 ≠ .hang) :
+    cleanAfter k false (viewOf (createFail (run s steps) k E.tasks late res hf).1) = true := by
+  have hk := lossKeeps_run steps hl s k E.tasks E.hooks ⟨⟨E, hE, rfl, rfl, hte⟩, hwf, hag, hfaith⟩
+  obtain ⟨E', hE', a, b, c⟩ := hk.listed
+  rw [← a] at hnh ⊢
+  exact createFail_clean _ k late res hf E' hE' c (by rw [a]; exact hk.wf) (by rw [a, b]; exact hhk)
+    (by rw [b]; exact hrel) (by rw [a]; exact hk.faithful) hnh
 
 end Own
